@@ -6,14 +6,14 @@
  "tier": "wip",
  "harness": "h_array_update_space",
  "enforce": ["xattr_array_update"],
- "replace": ["find_ea_index", "xattr_find_position", "xattr_update_entry", "ext2fs_xattrs_expand"],
+ "replace": ["find_ea_index", "xattr_find_position", "xattr_update_entry"],
  "unwind": 6,
  "unwind_reason": "xattr_array_update is loop-free once its callees are replaced by contract; the bound serves the DFCC library's write-set loops (unwinding assertions on)",
  "functions": ["lib/ext2fs/ext_attr.c:xattr_array_update"],
  "assumes": ["handle: 0 <= ibody_count <= count <= capacity, capacity = 4 (the initial capacity; a full array is expanded to 8), attrs array with ARBITRARY contents; old_idx in -1 .. count-1. The array length is a configuration bound only: the statement is about the arithmetic on needed / free / old occupancy, which is unbounded (all sizes symbolic)",
              "format limits: value_len and the replaced entry's value_len <= 2^24 (kernel EXT4_XATTR_SIZE_MAX), names <= 255; ibody_free and block_free arbitrary in [-2^30, 2^30] (callers compute them from sizes <= 65536 and space_used)",
              "call-site guarantee (ext2fs_xattr_set finds old_idx by strcmp on the full name): the entry at old_idx carries the same name, hence the same short-name length, as the key; stated as a postcondition of the find_ea_index contract on the uninterpreted strlen",
-             "callees by contract: find_ea_index (returns 0/1, short name pointer arbitrary), xattr_find_position (contract proved in find_position), xattr_update_entry (contract proved in update_entry), ext2fs_xattrs_expand (fails and changes nothing, or capacity += expandby and a separate new array of that capacity with arbitrary contents)",
+             "callees by contract: find_ea_index (returns 0/1, short name pointer arbitrary), xattr_find_position (contract proved in find_position), xattr_update_entry (the bookkeeping subset of the contract proved in update_entry), ext2fs_xattrs_expand is the REAL function",
              "libc strlen uninterpreted (<= 255); libc memmove is a stub that CHECKS source and destination ranges lie inside live objects and then havocs the destination object (the map semantics of the moves is the subject of array_update_map)",
              "placement of the entry after the call is read off the change of h->ibody_count (new entry: +1 = inode body; entry formerly in the body: -1 = moved to the block; entry formerly in the block: +1 = moved to the body); array_update_map checks the position against ibody_count on real arrays"],
  "native": false
@@ -64,20 +64,6 @@ static int find_ea_index(const char *fullname, const char **name, int *index)
 	ENSURES(verif_g6 == 0 || XSPEC_STRLEN(*name) == verif_g5)	/* same name as the replaced entry */
 	ASSIGNS(*name, *index, verif_p0, g_off);
 
-/*
- * ext2fs_xattrs_expand by contract: fails and changes nothing, or installs a new array of capacity + expandby slots.
- * The new array is the separate heap object g_newarr the harness has prepared (contents arbitrary: that the old
- * elements are copied is the subject of array_update_map, which runs the real function).
- */
-struct ext2_xattr *g_newarr;
-int g_newcap;
-static errcode_t ext2fs_xattrs_expand(struct ext2_xattr_handle *h, unsigned int expandby)
-	REQUIRES(h->capacity + (int)expandby == g_newcap)
-	ENSURES(RET >= 0 && RET <= 0x7fffffffL && RET != EXT2_ET_EA_NO_SPACE)
-	ENSURES(RET == 0 || (h->attrs == OLD(h->attrs) && h->capacity == OLD(h->capacity)))
-	ENSURES(RET != 0 || (h->capacity == g_newcap && h->attrs == g_newarr))
-	ASSIGNS(h->attrs, h->capacity);
-
 /* ---- the specification, on the arithmetic (all in signed 64 bits; XSPEC_* from the on-disk format) ---- */
 #define S64(x) ((long long)(x))
 #define NEW_NEED(value_len, in_inode) S64(XSPEC_NEED(XSPEC_STRLEN(verif_p0), (value_len), (in_inode)))
@@ -113,8 +99,9 @@ static errcode_t xattr_array_update(struct ext2_xattr_handle *h, const char *nam
 	/* any failure leaves the bookkeeping alone */
 	ENSURES(RET == 0 || (S64(h->count) == S64(verif_g1) && S64(h->ibody_count) == S64(verif_g0)))
 	ENSURES(0 <= h->ibody_count && h->ibody_count <= h->count && h->count <= h->capacity)
-	ASSIGNS(h->attrs, h->capacity, h->count, h->ibody_count, __CPROVER_object_whole(h->attrs), __CPROVER_object_whole(g_newarr),
-		verif_p0, verif_g4, verif_g2, g_off, xat_mon);
+	ASSIGNS(h->attrs, h->capacity, h->count, h->ibody_count, __CPROVER_object_whole(h->attrs),
+		verif_p0, verif_g4, verif_g2, g_off, xat_mon)
+	XAT_FREES(h->attrs);	/* ext2fs_xattrs_expand (real) releases the old array */
 
 void h_array_update_space(void)
 {
@@ -128,9 +115,6 @@ void h_array_update_space(void)
 	struct ext2_xattr_handle H, *h = &H;	/* on the stack: CBMC propagates constants through it (a heap handle makes every size symbolic) */
 	/* contents arbitrary; typed heap objects of constant size (a symbolic-size byte object does not scale) */
 	struct ext2_xattr *a = malloc(4 * sizeof(struct ext2_xattr));
-	g_newarr = malloc(8 * sizeof(struct ext2_xattr));
-	g_newcap = 8;
-	ASSUME(g_newarr != 0);
 	char *name = malloc(26), *value = malloc(1);	/* contents irrelevant: strlen is uninterpreted, the value is only passed on */
 	ASSUME(a != 0 && name != 0 && value != 0);
 	h->magic = EXT2_ET_MAGIC_EA_HANDLE;
@@ -177,5 +161,6 @@ void h_array_update_space(void)
 			REACH("other-error");
 	}
 	CHECK(0 <= h->ibody_count && h->ibody_count <= h->count && h->count <= h->capacity, "handle invariant kept");
+	if (r == 0 && h->capacity == 8) REACH("expanded");
 	REACH("end");
 }
